@@ -5,7 +5,7 @@ From Coq Require Import NArith List Bool.
 Import ListNotations.
 From Coq Require Import ZArith.
 From CXV Require Import Gen.TokTy Gen.ParserTables Parse.Balanced Gen.Blocks Parse.BlocksSM.
-From CXV Require Import Base.Regex Base.Cost Gen.LexRules Lex.PlyLoop Gen.StreamTables Stream.TokBuf Fmt.TokFmt PP.Filters Misc.ReprModel Gen.Schema Parse.Fold Parse.Declarator Parse.DeclSpec Parse.EnumList Parse.BaseClause Parse.NsHeader Parse.Specs Parse.VarStmt Parse.FnTail Parse.Init Parse.Members Parse.MethodTail Parse.Template Parse.PQName Parse.Using Parse.EnumDecl Parse.ClassEnum Parse.TemplateArg Parse.CtorDtor Parse.ParamsX.
+From CXV Require Import Base.Regex Base.Cost Gen.LexRules Lex.PlyLoop Gen.StreamTables Stream.TokBuf Fmt.TokFmt PP.Filters Misc.ReprModel Gen.Schema Parse.Fold Parse.Declarator Parse.DeclSpec Parse.EnumList Parse.BaseClause Parse.NsHeader Parse.Specs Parse.VarStmt Parse.FnTail Parse.Init Parse.Members Parse.MethodTail Parse.Template Parse.PQName Parse.Using Parse.EnumDecl Parse.ClassEnum Parse.TemplateArg Parse.CtorDtor Parse.ParamsX Parse.DeclStmt Parse.TemplateStmt.
 Open Scope N_scope.
 
 Definition nlen {A} (l : list A) : N := N.of_nat (length l).
@@ -712,8 +712,55 @@ Definition run_params_x (args : list N) : list N :=
   | DErr e => [1; e]
   end.
 
+(* 104: what a `template` statement is handed on to (tokens behind the `template` keyword).
+   Output: 0, rest length, continuation (0 inst, 1 using, 2 friend, 3 concept, 4 requires, 5 declaration), header count,
+   then per header: parameter count, parameters (as for 96) *)
+Definition run_template_stmt (args : list N) : list N :=
+  let toks := dec_tks args in
+  match template_stmt (S (length toks)) (4 * length toks + 8) toks with
+  | DOk (k, hs, rest) => 0 :: nlen rest :: k :: nlen hs :: flat_map (fun h => nlen h :: flat_map enc_tparam h) hs
+  | DErr e => [1; e]
+  end.
+
+(* 105: a concept definition behind the `concept` keyword: in-class flag, then tokens.
+   Output: 0, rest length, name, value length, value tokens *)
+Definition run_concept (args : list N) : list N :=
+  match args with
+  | ic :: r =>
+      match concept_stmt (negb (ic =? 0)) (dec_tks r) with
+      | DOk (nm, v, rest) => 0 :: nlen rest :: nm :: nlen v :: enc_tks v
+      | DErr e => [1; e]
+      end
+  | [] => [1; 0]
+  end.
+
+(* 106: a whole declaration statement at namespace scope (variables and function declarators mixed): declarator budget,
+   then tokens.  Output: 0, rest length, count, nine flags, then per entry
+     0 name <type length> <type> value (0 | 1 len tokens)                                             -- variable
+     1 name <type length> <function type> throw (0 | 1 len tokens) noexcept (0 | 1 len tokens) body deleted   -- function *)
+Definition enc_entry (e : entry) : list N :=
+  match e with
+  | EVar nm t iv => let x := enc_ty t in 0 :: nm :: nlen x :: x ++ enc_opt_tks iv
+  | EFn nm rt ps va tl =>
+      let x := enc_ty (TFn rt ps va) in
+      1 :: nm :: nlen x :: x ++ enc_opt_tks (t_throw tl) ++ enc_opt_tks (t_noexcept tl) ++ [bN (t_body tl); bN (t_deleted tl)]
+  end.
+Definition run_decl_stmt (args : list N) : list N :=
+  match args with
+  | n :: r =>
+      let toks := dec_tks r in
+      match decl_stmt (N.to_nat n) (4 * length toks + 8) toks with
+      | DOk (m, l, rest) => 0 :: nlen rest :: nlen l :: enc_mods m ++ flat_map enc_entry l
+      | DErr e => [1; e]
+      end
+  | [] => [1; 0]
+  end.
+
 Definition run_case (cmd : N) (args : list N) : list N :=
   match cmd, args with
+  | 106, _ => run_decl_stmt args
+  | 105, _ => run_concept args
+  | 104, _ => run_template_stmt args
   | 103, _ => run_params_x args
   | 102, _ => run_ctor_dtor args
   | 101, _ => run_tspec args
